@@ -452,8 +452,12 @@ async def c13_part(ctx) -> None:
     statuses = [0, 1, 2, 3, 4, 5, 6]
     idx = 0
     combos = [c for n in (1, 2) for c in itertools.permutations(list(writable.items()), n)] + [tuple(list(writable.items())[:3])]
-    for combo in combos:
-        for vec in itertools.product(statuses, repeat=len(combo)):
+    # a characteristic WITHOUT write permission inside the call (rejected by the library itself, nothing is sent for it): the
+    # other items of the same call are still written and reported on their own merits
+    read_only = {14: 5, 3: "x"}
+    ro_combos = [((14, 5), (10, True)), ((14, 5), (10, True), (11, 42)), ((10, True), (14, 5), (11, 42)), ((3, "x"), (13, 9)), ((11, 42), (14, 5)), ((14, 5),)]
+    for combo in combos + ro_combos:
+        for vec in (itertools.product(statuses, repeat=len(combo)) if combo not in ro_combos else [tuple(0 for _ in combo)]):
             idx += 1
             if not ctx.mine(idx):
                 continue
@@ -513,6 +517,15 @@ async def c13_part(ctx) -> None:
                 for (aid, iid, v), s in zip(writes, vec):
                     got = (res or {}).get((aid, iid))
                     isread = "pr" in acc.chars[iid][3]
+                    if iid in read_only:
+                        s = -1  # rejected locally
+                        if any(r["opcode"] in (0x02, 0x04) and r["iid"] == iid for r in acc.requests):
+                            bad = f"a write for {iid} (no write permission) was sent to the accessory"
+                            break
+                        ctx.count("ble_local_rejects_judged")
+                    elif not s and not any(r["opcode"] in (0x02, 0x04) and r["iid"] == iid for r in acc.requests):
+                        bad = f"the write for {iid} never reached the accessory"
+                        break
                     if s:
                         if got is None or not got.get("status"):
                             bad = f"rejected {iid} (PDU status {s}) presented as written: {got!r}"
